@@ -7,8 +7,11 @@ tuples of different arity, unions incl. None and tuple members, Any, None) on a 
 Laws: reflexive, transitive (Any excluded: it is both top and bottom by design), everything below
 Any, a union is a subtype exactly when all members are, maybe ⊇ strict, instance subsumption
 agrees with the class hierarchy, distance defined only for maybe-subtypes, distance 0 for
-identical types.  Plus shape: the Any test comes first, strict and maybe visitors differ only in
-the union arm.  Types outside the universe's shapes are not decided.
+identical types, a non-union is below a union exactly when it is below some member (strictly for
+is_subtype, leniently for is_maybe_subtype; unions nested in tuples are in the universe).  Plus
+shape: the Any test comes first, strict and maybe visitors differ only in the union arm; the
+inheritance graph gets its edges from each class's own __bases__.  Types outside the universe's
+shapes are not decided.
 """
 
 from __future__ import annotations
